@@ -93,11 +93,12 @@ def getVariant (j : Json) : Except String Variant :=
   | .str "current" => pure current
   | .str "pinned" => pure pinned
   | .arr a => do
-    if a.size != 6 then
-      throw "variant must be [callSrcPos, checkLang, resetTargetPos, codeSinkUnit, sinkTagLoc, fieldReadLoc]"
+    if a.size != 7 then
+      throw "variant must be [callSrcPos, checkLang, resetTargetPos, codeSinkUnit, sinkTagLoc, fieldReadLoc, codeSinkSymOnly]"
     pure { callSrcPos := ← getInt a[0]!, checkLang := (← getInt a[1]!) != 0,
            resetTargetPos := (← getInt a[2]!) != 0, codeSinkUnit := (← getInt a[3]!) != 0,
-           sinkTagLoc := (← getInt a[4]!) != 0, fieldReadLoc := (← getInt a[5]!) != 0 }
+           sinkTagLoc := (← getInt a[4]!) != 0, fieldReadLoc := (← getInt a[5]!) != 0,
+           codeSinkSymOnly := (← getInt a[6]!) != 0 }
   | _ => throw s!"bad variant {j.compress}"
 
 /-- constants extracted from the live modules; the named values of the model are compared. -/
